@@ -576,6 +576,16 @@ def handleRandomGen (j : Json) : Except String Json := do
       (RandomGen.countSolutions d n)
   | _ => throw s!"unknown randomgen method {m}"
 
+def handleDecode (j : Json) : Except String Json := do
+  let fs ← (← j.getObjValAs? (Array Json) "factors").toList.mapM parseLFactor
+  let b : Layout.LBlock := { factors := fs, trials := (← getNat j "trials") }
+  let sol ← getInts j "solution"
+  return exceptJson (fun (r : List (Option (List (Option Nat)))) =>
+    Json.arr (r.map (fun o => match o with
+      | none => Json.null
+      | some l => Json.arr (l.map (fun x => match x with | some v => toJson v | none => Json.null)).toArray)).toArray)
+    (Decode.decode b sol)
+
 def handle (j : Json) : Except String Json := do
   let op ← getStr j "op"
   match op with
@@ -591,6 +601,7 @@ def handle (j : Json) : Except String Json := do
   | "conform" => handleConform j
   | "pipeline" => handlePipeline j
   | "randomgen" => handleRandomGen j
+  | "decode" => handleDecode j
   | _ => throw s!"unknown op {op}"
 
 partial def loop (h : IO.FS.Stream) (out : IO.FS.Stream) : IO Unit := do
